@@ -215,6 +215,33 @@ mod verif_c18_scale {
 """
 
 
+ANYC = "src/counter/any_counter.rs"
+KANI_TP = r"""
+#[cfg(kani)]
+mod verif_c18_tp {
+    use super::*;
+    /// AnyCounter::display_throughput hands the WHOLE 128-bit duration to the formatter: the f64 it stores is
+    /// non-negative, exact below 2^53, and on the same side of every power of two as the duration itself.
+    #[kani::proof]
+    fn throughput_duration_conversion() {
+        let picos: u128 = kani::any();
+        let c = AnyCounter::known(KnownCounterKind::Items, kani::any());
+        let binary: bool = kani::any();
+        let d = c.display_throughput(crate::time::FineDuration { picos }, if binary { BytesFormat::Binary } else { BytesFormat::Decimal });
+        let r: f64 = d.picos;
+        assert!(!r.is_nan() && r >= 0.0, "[C18] the duration of a throughput is a non-negative number");
+        let k: u32 = kani::any(); kani::assume(k < 128);
+        let p: u128 = 1u128 << k;
+        let pf: f64 = p as f64;             // exact: a power of two
+        if picos >= p { assert!(r >= pf, "[C18] a duration of at least 2^k ps is not shown as a shorter one"); }
+        else { assert!(r <= pf, "[C18] a duration below 2^k ps is not shown as a longer one"); }
+        if picos < (1u128 << 53) { assert!(r as u128 == picos, "[C18] durations below 2^53 ps convert exactly"); }
+        kani::cover!(picos > u64::MAX as u128 && k == 64);
+        kani::cover!(picos == 0);
+    }
+}
+"""
+
 def verus_files(S: Sources):
     fd = S(FD)
     secs = []
@@ -403,11 +430,12 @@ def build(S: Sources) -> Unit:
                       covers="util::fmt::format_f64 (truncation rule; f64::to_string replaced by the rendering)") for d in (1, 3, 5)],
         KaniHarness("verif_c18_scale::scale_value_prefix", "complete", covers="util::fmt::scale_value (every f64 >= 0, both byte formats)"),
         KaniHarness("verif_c18_scale::scale_suffixes", "complete", covers="util::fmt::Scale::suffix (byte sizes)"),
+        KaniHarness("verif_c18_tp::throughput_duration_conversion", "complete", covers="AnyCounter::display_throughput (the duration handed to the throughput formatter, every u128)"),
     ]
     return Unit(
         property_id="C18",
         verus=vfiles,
-        kani=KaniSpec(injections={FD: KANI_FD, UFMT: KANI_UFMT}, harnesses=hs),
+        kani=KaniSpec(injections={FD: KANI_FD, UFMT: KANI_UFMT, ANYC: KANI_TP}, harnesses=hs),
         build_errors=errs,
         undecided_clauses=[
             "f64::to_string (std float formatting: exponent-free, shortest round-trip digits) is replaced by a chosen rendering; format_f64 on renderings without a dot, with more than 5 integer digits, or for sig_figs other than 4",
